@@ -156,3 +156,49 @@ def calls(expr):
 
 def attr_call(n, attr):
     return isinstance(n, ast.Call) and isinstance(n.func, ast.Attribute) and n.func.attr == attr
+
+
+def inline_simple_call(prog, fi, call, depth=0):
+    """If ``call`` (an expression in canonical form, from function ``fi``) invokes a plain function of the program whose
+    body, in canonical form, is a single returned expression, return that expression with the parameters replaced by
+    the call's arguments (recursively, bounded); otherwise None.  Used by value-flow rules to see through small
+    extracted helpers (``self.add_error(_make_error(nodes, path))``)."""
+    if not isinstance(call, ast.Call) or depth > 2:
+        return None
+    try:
+        cal = prog.resolve_call(fi, call)
+    except Exception:
+        return None
+    cal = [c for c in (cal or []) if hasattr(c, "node") and isinstance(c.node, (ast.FunctionDef,))]
+    if len(cal) != 1:
+        return None
+    f = cal[0]
+    if getattr(f, "cls", None) is not None and f.name == "__init__":
+        return None
+    rets = [n for n in ast.walk(f.node) if isinstance(n, ast.Return)]
+    own = [n for n in f.node.body if not (isinstance(n, ast.Expr) and isinstance(n.value, ast.Constant))]
+    if len(rets) != 1 or rets[0].value is None or any(isinstance(n, (ast.If, ast.For, ast.While, ast.Try, ast.With)) for n in own):
+        return None
+    params = _all_params(f.node)
+    if getattr(f, "cls", None) is not None:
+        params = params[1:]
+    if call.keywords and any(k.arg is None for k in call.keywords):
+        return None
+    binding = {}
+    for p, a in zip(params, call.args):
+        binding[p] = a
+    for k in call.keywords:
+        if k.arg in params:
+            binding[k.arg] = k.value
+    if set(binding) != set(params):
+        return None
+    body = Canon(f.node).expr(rets[0].value)
+
+    class S(ast.NodeTransformer):
+        def visit_Name(self, node):
+            if isinstance(node.ctx, ast.Load) and node.id in binding:
+                return copy.deepcopy(binding[node.id])
+            return node
+    out = S().visit(copy.deepcopy(body))
+    nested = inline_simple_call(prog, f, out, depth + 1) if isinstance(out, ast.Call) else None
+    return nested if nested is not None else out
